@@ -49,12 +49,14 @@ pipe_reap(void *arg)
 {
 	nni_pipe *p = arg;
 
+	NNI_VERIF_DELAY(9, p);
 	p->p_proto_ops.pipe_close(p->p_proto_data);
 
 	// Close the underlying transport.
 	p->p_tran_ops.p_close(p->p_tran_data);
 
 	nni_pipe_run_cb(p, NNG_PIPE_EV_REM_POST);
+	NNI_VERIF_DELAY(10, p);
 
 	// Make sure any unlocked holders are done with this.
 	// This happens during initialization for example.
@@ -134,6 +136,7 @@ nni_pipe_close(nni_pipe *p)
 	if (nni_atomic_swap_bool(&p->p_closed, true)) {
 		return; // We already did a close.
 	}
+	NNI_VERIF_DELAY(13, p);
 
 	nni_reap(&pipe_reap_list, p);
 }
@@ -283,6 +286,7 @@ pipe_create(nni_pipe **pp, nni_sock *sock, nni_sp_tran *tran, nni_dialer *d,
 	uint8_t *proto_data = (uint8_t *) p + NNI_ALIGN_UP(sizeof(*p));
 	uint8_t *tran_data  = proto_data + NNI_ALIGN_UP(pops->pipe_size);
 	nni_pipe_add(p);
+	NNI_VERIF_DELAY(14, p);
 
 	p->p_tran_data  = tran_data;
 	p->p_proto_data = proto_data;
